@@ -138,7 +138,7 @@ func (g *gen) value() []byte {
 	case c < 98:
 		class, n = "300", 300
 	default:
-		if g.thorough || r.Chance(1, 4) {
+		if r.Chance(1, 4) {
 			class, n = "70000", 70000
 		} else {
 			class, n = "1000", 1000
